@@ -20,10 +20,11 @@ package logx
 // (the name was fixed when the current file was started, with one-second resolution: after a rotation within the
 // logger's first second it equals the previous backup's name) - then a name of this moment is taken instead
 //@   replay-for existing-backup-never-overwritten logx_backup_overwritten
-//@   let targetExists = ret(os.Stat, 1, 2) == nil
-//@   ensures [existing-backup-never-overwritten] calls(os.Rename) == 1 ==> calls(os.Stat) == 2 && arg(os.Stat, 0, 2) == old(l.backup) && (targetExists ==> arg(os.Rename, 1) == ret(l.rule.BackupFilename, 0, 1)) && (!targetExists ==> arg(os.Rename, 1) == old(l.backup))
+//@   opaque backupTaken
+//@   let targetExists = ret(backupTaken)
+//@   ensures [existing-backup-never-overwritten] calls(os.Rename) == 1 ==> calls(backupTaken) == 1 && arg(backupTaken, 0) == old(l.backup) && (targetExists ==> arg(os.Rename, 1) == ret(l.rule.BackupFilename, 0, 1)) && (!targetExists ==> arg(os.Rename, 1) == old(l.backup))
 //@   ensures [rename-current-to-backup] calls(os.Rename) <= 1 && (calls(os.Rename) == 1 ==> arg(os.Rename, 0) == old(l.filename))
-//@   ensures [rename-iff] calls(os.Create) == 1 ==> (calls(os.Rename) == 1) == (ret(os.Stat, 1, 1) == nil && len(old(l.backup)) > 0)
+//@   ensures [rename-iff] calls(os.Create) == 1 ==> (calls(os.Rename) == 1) == (ret(os.Stat, 1) == nil && len(old(l.backup)) > 0)
 //@   ensures [next-backup-name] calls(os.Create) == 1 ==> l.backup == ret(l.rule.BackupFilename, 0, last)
 //@   ensures [close-old] old(l.fp) != nil ==> calls(old(l.fp).Close) == 1
 //@   ensures [filename-kept] l.filename == old(l.filename)
@@ -284,3 +285,12 @@ package logx
 //@   prop C19
 //@   requires r != nil
 //@   ensures [name-is-prefix-plus-extension] ext == ret(filepath.Ext) && arg(filepath.Ext, 0) == r.filename && arg(filepath.Base, 0) == r.filename && prefix == strsub(ret(filepath.Base), 0, len(ret(filepath.Base)) - len(ext))
+
+// backupTaken: a backup name is taken when a file of that name exists OR its compressed form does (the compression
+// goroutine replaces the backup by name+".gz": looking at the plain name alone would call the name free and the next
+// compression would truncate that .gz).
+//@ func backupTaken
+//@   prop C19
+//@   replay logx_backup_overwritten_gz
+//@   ensures [plain-name-exists] ret(os.Stat, 1, 1) == nil ==> result && arg(os.Stat, 0, 1) == name
+//@   ensures [compressed-form-exists] ret(os.Stat, 1, 1) != nil ==> calls(os.Stat) == 2 && arg(os.Stat, 0, 2) == name + ".gz" && result == (ret(os.Stat, 1, 2) == nil)
